@@ -1311,7 +1311,9 @@ def strip_obs(observed):
 
 
 def probe_quirks(ck, version):
-    """Which variant of DefinitionsReader.open the implementation is (minimal witnesses)."""
+    """Which variant of DefinitionsReader.open the implementation is (minimal witnesses).  Both
+    defects are repaired in suds; a switch that flips back is a regression and is reported under
+    the defect's own key (a VIOLATION unless the known-findings file lists the key as known)."""
     q = []
     for shape, second, test in ((5, "base", lambda o: o["exc"] is not None and "NoneType" in o["exc"]),
                                 (0, "nounwrap", lambda o: o["exc"] is None and o["wrapped"] != o["ref_wrapped"])):
